@@ -46,11 +46,20 @@ type lmGraph struct {
 // lmWithSplit is set by checks that include body splits and re-ingest requests in the action set.
 var lmWithSplit = false
 
+// lmGrowth selects LabelmapGrowth_mc (multi-pair renumber, renumber onto a formerly used label) instead of Labelmap_mc.
+var lmGrowth = false
+
 func lmConfig(g *lmm.Geom, initMax uint64, maxOps int, emit bool, overwrite bool) string {
 	s := fmt.Sprintf("CONSTANTS\n  R = %d\n  NB = %d\n  NVox <- NVoxDef\n  InitSV <- InitSVDef\n  InitMax = %d\n  MaxOps = %d\n  Classes1 <- Classes1Def\n  Classes2 <- Classes2Def\n  WithOverwrite = %s\n  WithSplit = %s\n",
 		g.R, len(g.Blocks), initMax, maxOps, map[bool]string{true: "TRUE", false: "FALSE"}[overwrite], map[bool]string{true: "TRUE", false: "FALSE"}[lmWithSplit])
 	if g.InitMap != nil {
 		s += "  InitMap <- InitMapDef\n"
+	}
+	if lmGrowth {
+		if emit {
+			return "SPECIFICATION SpecEmitG\n" + s + "VIEW View\nINVARIANTS EmitObs\nCHECK_DEADLOCK FALSE\n"
+		}
+		return "SPECIFICATION SpecG\n" + s + "VIEW View\nINVARIANTS Inv_C08_Conservation Inv_C12_NewLabelsFresh Inv_Clip Inv_ClipConservation Inv_PairsCommute\nPROPERTIES Act_C08_OnlyMoves Act_C12_Increasing\nCHECK_DEADLOCK FALSE\n"
 	}
 	if emit {
 		return "SPECIFICATION SpecEmit\n" + s + "VIEW View\nINVARIANTS EmitObs\nCHECK_DEADLOCK FALSE\n"
@@ -73,9 +82,13 @@ func maxU64(a []uint64) uint64 {
 func lmExplore(c *Ctx, g *lmm.Geom, initSV []uint64, maxOps, mcOps int, l1, l2 *lmm.LevelTab, overwrite bool) (*lmGraph, int64, int64) {
 	files := map[string][]byte{"LabelGeom.tla": []byte(g.TLAConstantsDownres(initSV, l1, l2))}
 	files["gen_lm_mc.cfg"] = []byte(lmConfig(g, maxU64(initSV), mcOps, false, overwrite))
-	mc := c.MustModelCheck(tlc.Opts{Module: "Labelmap_mc", Config: "gen_lm_mc.cfg", Files: files, Timeout: 20 * time.Minute})
+	module := "Labelmap_mc"
+	if lmGrowth {
+		module = "LabelmapGrowth_mc"
+	}
+	mc := c.MustModelCheck(tlc.Opts{Module: module, Config: "gen_lm_mc.cfg", Files: files, Timeout: 20 * time.Minute})
 	files["gen_lm_emit.cfg"] = []byte(lmConfig(g, maxU64(initSV), maxOps, true, overwrite))
-	r := c.MustModelCheck(tlc.Opts{Module: "Labelmap_mc", Config: "gen_lm_emit.cfg", Files: files, Workers: 1, Timeout: 20 * time.Minute})
+	r := c.MustModelCheck(tlc.Opts{Module: module, Config: "gen_lm_emit.cfg", Files: files, Workers: 1, Timeout: 20 * time.Minute})
 	gr := &lmGraph{states: map[string]*lmState{}}
 	obsOf := map[string]lmm.Obs{}
 	type rawEdge struct {
@@ -192,7 +205,19 @@ type lmWorker struct {
 	labelBase uint64 // added to the labels of the initial layout (large label values)
 	preOps    []lmm.Op // operations applied at the root before the initial comparison
 	noExt     bool     // basic read set only (C14 reads the levels instead)
+	isoEvery int // > 0: full-read-set isolation re-reads (parent and earlier sibling) every isoEvery-th transition of a state
+	// ingest, when set, replaces the choice of the ingestion path (C14: whole box / POST blocks in parts)
+	ingest func(w *lmWorker, uuid string, realSV []uint64, blocks []int) error
 }
+
+type lmSibling struct {
+	uuid string
+	obs  lmm.Obs
+	lab  *lmm.Labels
+	op   lmm.Op
+}
+
+var lmIsoFull, lmIsoSibling int64
 
 var (
 	lmOpMu    sync.Mutex
@@ -206,6 +231,12 @@ func lmCountOp(op lmm.Op) {
 	}
 	if op.Chosen {
 		k += "/client-chosen labels"
+	}
+	if len(op.Pairs) > 0 {
+		k += "/two pairs in one request"
+	}
+	if op.Onto {
+		k += "/onto a formerly used label"
 	}
 	lmOpMu.Lock()
 	lmOpCount[k]++
@@ -267,7 +298,9 @@ func (w *lmWorker) start() (string, *lmm.Labels) {
 	w.in.MultiBlock = w.multi
 	w.in.NoExt = w.noExt
 	w.in.ExtEvery = w.c.pick(1, 3)
-	if w.multi {
+	if w.ingest != nil {
+		must(w.ingest(w, o.Root, realSV, blocks), "ingest")
+	} else if w.multi {
 		must(w.in.IngestRows(o.Root, realSV, blocks, false), "ingest (multi-block POST raw)")
 	} else if w.w%2 == 1 {
 		must(w.in.IngestBlocks(o.Root, realSV, blocks), "ingest (POST blocks)")
@@ -298,6 +331,7 @@ func (w *lmWorker) start() (string, *lmm.Labels) {
 // explore executes every outgoing edge of state sk (held by committed version uuid).
 func (w *lmWorker) explore(sk, uuid string, lab *lmm.Labels) {
 	st := w.gr.states[sk]
+	var prevSib lmSibling
 	for oi, ei := range st.out {
 		e := w.gr.edges[ei]
 		tk := e.T.Canon()
@@ -313,8 +347,9 @@ func (w *lmWorker) explore(sk, uuid string, lab *lmm.Labels) {
 			}
 		}
 		// quick tier: of the transitions out of depth-2 states (the third operation of a history) a seeded 40 % is
-		// replayed; everything shallower completely (the thorough tier and other seeds cover the rest)
-		if !w.c.thorough() && st.depth >= 2 && (uint64(ei)*2654435761+uint64(w.c.Seed)*40503)%10 >= 4 {
+		// replayed (now 36 %); everything shallower completely (the thorough tier and other seeds cover the rest)
+		// (36 % since the full-read-set isolation re-reads and the renumber histories were added)
+		if !w.c.thorough() && st.depth >= 2 && (uint64(ei)*2654435761+uint64(w.c.Seed)*40503)%100 >= 36 {
 			continue
 		}
 		child := w.branch(uuid)
@@ -355,6 +390,27 @@ func (w *lmWorker) explore(sk, uuid string, lab *lmm.Labels) {
 			if len(d) > 0 {
 				w.report("operation-visible-at-ancestor", sk, e.L, 200, d, lab, w.run)
 			}
+		}
+		// ... with the full read set (indices, sizes, sparse volumes, mappings), at the parent and at the sibling
+		// version created for the previous transition out of the same state (C08-11)
+		if w.isoEvery > 0 {
+			if oi%w.isoEvery == 1 {
+				d, err := w.in.Compare(uuid, st.obs, lab, lmm.Full)
+				must(err, "compare parent (full)")
+				atomic.AddInt64(&lmIsoFull, 1)
+				if len(d) > 0 {
+					w.report("operation-visible-at-ancestor", sk, e.L, 200, d, lab, w.run)
+				}
+			}
+			if oi%w.isoEvery == 1+w.isoEvery/2 && prevSib.uuid != "" {
+				d, err := w.in.Compare(prevSib.uuid, prevSib.obs, prevSib.lab, lmm.Full)
+				must(err, "compare sibling (full)")
+				atomic.AddInt64(&lmIsoSibling, 1)
+				if len(d) > 0 {
+					w.report("operation-visible-at-sibling", sk, e.L, 200, append([]string{fmt.Sprintf("sibling version %s (reached by %s) changed", prevSib.uuid, prevSib.op.Op)}, d...), prevSib.lab, w.run)
+				}
+			}
+			prevSib = lmSibling{uuid: child, obs: e.Obs, lab: cl, op: e.L}
 		}
 		if w.afterEdge != nil {
 			w.afterEdge(w, child, e, cl)
@@ -593,8 +649,10 @@ func checkC08(c *Ctx) int {
 		}
 		variantK := lo.name == "small6/K"
 		lmWithSplit = lo.name == "small6/S" || variantK
+		lmGrowth = lo.name == "small6/C" // + two renumber pairs in one request, renumber onto a formerly used label (C08-13)
 		gr, s, t := lmExplore(c, lo.g, lo.initSV, lo.ops, lo.ops+1, nil, nil, lo.name == "small6/B" || variantK)
 		lmWithSplit = false
+		lmGrowth = false
 		states += s
 		trans += t
 		nw := 12
@@ -617,6 +675,21 @@ func checkC08(c *Ctx) int {
 					cfg: map[string]string{}, edges: &edges, restartEvery: 40, restarts: &restarts}
 				if variantK {
 					w.cache, w.multi, w.labelBase = 64, true, bigBase
+				}
+				w.isoEvery = c.pick(24, 6)
+				if lo.name == "small6/C" && wi >= nw-2 {
+					// ingestion that leaves the bookkeeping to the client (C08-14)
+					bare := wi == nw-1
+					w.ingest = func(w *lmWorker, uuid string, sv []uint64, blocks []int) error {
+						how := "ingest-supervoxels"
+						if bare {
+							how = "blocks?noindexing=true"
+						}
+						if err := w.in.IngestBare(uuid, sv, blocks, how); err != nil {
+							return err
+						}
+						return w.in.PostIndicesOf(uuid, gr.states[gr.init].obs, lmm.NewLabels(), !bare, !bare)
+					}
 				}
 				root, lab := w.start()
 				defer c.DropNode(w.n)
@@ -642,6 +715,13 @@ func checkC08(c *Ctx) int {
 		trans += t
 		restarts += nr
 		run.Set("version_merges_compared", np)
+	}
+	// renumber onto a formerly used label: directed replay of the histories that lead to such a transition (C08-13)
+	if only == "" || strings.Contains(","+only+",", ",onto,") {
+		no, s, t := lmOntoPaths(c, run, run12, small, &edges)
+		states += s
+		trans += t
+		run.Set("renumber_onto_former_label_histories", no)
 	}
 	// simulated long behaviours on the larger seeded geometry
 	big := lmm.NewGeom(c.Seed, false)
@@ -670,7 +750,9 @@ func checkC08(c *Ctx) int {
 	run.Set("transitions", trans)
 	run.Set("traces_validated_against_impl", edges)
 	run.Set("restarts_with_full_compare", restarts)
-	run.Set("rule", "case = one transition (merge / cleave / split-supervoxel with server- or client-chosen labels / renumber / mutating voxel write of a region / body split / index and mapping re-ingest / state-changing ingest of an agglomeration through POST mappings + POST index or POST indices, with every argument choice) of the TLC state graph of Labelmap.tla from an initial layout, executed on a real labelmap instance in a fresh child branch of the version holding the source state; after it every read endpoint (raw and mapped volume decoded to regions and checked voxel-exact within regions, size, supervoxels, sparsevol rles/srles, sparsevol-size, sparsevol-coarse, index, supervoxel-sizes, label, labels, mapping, sizes, listlabels) is compared with the specification's observation (Obs), and a rotating sample of the read options with the refinement LabelmapReads.tla computes for the state (Reads: per body and per supervoxel the clip of 8 query boxes): GET blocks / specificblocks (mapped and supervoxels; lz4, gzip, blocks, uncompressed), GET raw with lz4 / gzip / neuroglancer compression, unaligned boxes, single blocks and 2-d slices, sparsevol with minx..maxz x exact=true|false x format=rles|srles|blocks x compression x supervoxels=true, HEAD sparsevol, sparsevol-coarse and sparsevols-coarse with bounds, sparsevol-by-point, size / sizes / sparsevol-size with supervoxels=true including supervoxels that were split away, existing-labels, listlabels?start&number&sizes, GET indices / indices-compressed, labels with >= 100 points; the parent version is re-read (isolation), periodically the process is restarted and everything re-read; one layout runs with the label index cache on, labels near 2^64 and multi-block compressed POST raw; pairs of commuting transitions on sibling versions are merged with POST repo/merge and the merge node compared with the state TLC reaches by applying both (also after a restart); distinct = (layout, source state, transition)")
+	run.Set("isolation_rereads_with_the_full_read_set_at_the_parent", atomic.LoadInt64(&lmIsoFull))
+	run.Set("isolation_rereads_with_the_full_read_set_at_an_earlier_sibling", atomic.LoadInt64(&lmIsoSibling))
+	run.Set("rule", "case = one transition (merge / cleave / split-supervoxel with server- or client-chosen labels / renumber / mutating voxel write of a region / body split / index and mapping re-ingest / state-changing ingest of an agglomeration through POST mappings + POST index or POST indices, with every argument choice) of the TLC state graph of Labelmap.tla from an initial layout, executed on a real labelmap instance in a fresh child branch of the version holding the source state; after it every read endpoint (raw and mapped volume decoded to regions and checked voxel-exact within regions, size, supervoxels, sparsevol rles/srles, sparsevol-size, sparsevol-coarse, index, supervoxel-sizes, label, labels, mapping, sizes, listlabels) is compared with the specification's observation (Obs), and a rotating sample of the read options with the refinement LabelmapReads.tla computes for the state (Reads: per body and per supervoxel the clip of 8 query boxes): GET blocks / specificblocks (mapped and supervoxels; lz4, gzip, blocks, uncompressed), GET raw with lz4 / gzip / neuroglancer compression, unaligned boxes, single blocks and 2-d slices, sparsevol with minx..maxz x exact=true|false x format=rles|srles|blocks x compression x supervoxels=true, HEAD sparsevol, sparsevol-coarse and sparsevols-coarse with bounds, sparsevol-by-point, size / sizes / sparsevol-size with supervoxels=true including supervoxels that were split away, existing-labels, listlabels?start&number&sizes, GET indices / indices-compressed, labels with >= 100 points; the parent version is re-read (isolation), periodically the process is restarted and everything re-read; one layout runs with the label index cache on, labels near 2^64 and multi-block compressed POST raw; pairs of commuting transitions on sibling versions are merged with POST repo/merge and the merge node compared with the state TLC reaches by applying both (also after a restart); growth: two renumber pairs in one request and renumber onto a label of the initial layout that is free again (LabelmapGrowth.tla; the histories of depth 3 that lead to such a transition are replayed as chains, also across a restart); the committed parent and the sibling version of the previous transition are re-read with the FULL read set every few transitions (isolation of indices, sizes, sparse volumes and mappings, not only voxels); two workers of one layout ingest through POST ingest-supervoxels + POST indices + POST maxlabel resp. POST blocks?noindexing=true + POST index/<label> and must then read and behave like the POST raw instances; distinct = (layout, source state, transition)")
 	run.Assume = []string{"voxel layouts are unions of <=12 box-shaped regions of a 4-block volume (incl. negative coordinates, a single voxel, one 8^3 sub-block)", "label ids are compared modulo the bijection bound from the server's responses",
 		"read options are sampled (rotating, seeded) per transition, not all combinations on every transition (thorough tier: on every third comparison); the counts per combination are in reads_compared_by_option_combination",
 		"bounded reads use 8 query boxes per geometry (crossing x=0 into the negative block, inside one block unaligned to sub-blocks, one whole block, partial bounds, beyond the volume, one seeded box); exact=false and format=blocks answers are accepted anywhere between the exact clip and the clip expanded to whole blocks"}
